@@ -1,5 +1,6 @@
 /-
-  MODEL of `py_gql.lang.lexer.Lexer` (with proposed fixes C01-L1-L2-L4 and C01-L3).
+  MODEL of `py_gql.lang.lexer.Lexer` (with fixes C01-L1-L2-L4, C01-L3 and C02-U1: a high surrogate `\\uXXXX` escape
+  directly followed by a low surrogate `\\uXXXX` escape is one astral character).
 
   The lexer only ever reads forward, so its state `(self._source, self._position)` is modelled
   by the total length `n` and the unread suffix `s`: `self._position = n - s.length` (`posAt n s`),
@@ -93,6 +94,24 @@ def hex4 (a b c d : Nat) : Option Nat :=
     | _, _, _, _ => none
   else none
 
+def isHighSurrogate (c : Nat) : Bool := 0xD800 ≤ c && c ≤ 0xDBFF
+def isLowSurrogate (c : Nat) : Bool := 0xDC00 ≤ c && c ≤ 0xDFFF
+
+/-- `_read_escaped_unicode` after a HIGH surrogate `hi`: if the source continues with a `\uXXXX` LOW surrogate
+    escape, the two code units denote one astral character (fix C02-U1) -/
+def pairEscape (hi e1 e2 a b c d : Nat) : Option Nat :=
+  if isHighSurrogate hi && e1 == 92 && e2 == 117 then
+    match hex4 a b c d with
+    | some lo => if isLowSurrogate lo then some (0x10000 + (hi - 0xD800) * 0x400 + (lo - 0xDC00)) else none
+    | none => none
+  else none
+
+/-- `follow = self._source[self._position : self._position + 6]` after a high surrogate escape `hi`: the astral
+    character if `follow` is a `\uXXXX` low surrogate escape -/
+def pairAt (hi : Nat) : Text → Option Nat
+  | e1 :: e2 :: a :: b :: c :: d :: _ => pairEscape hi e1 e2 a b c d
+  | _ => none
+
 /-- `_read_escaped_unicode` on fewer than four remaining characters: the loop runs into the end
     of the source (`NonTerminatedString` at `position + 1` = `n + 1`) unless it meets a non-hex character first -/
 def shortUnicodeErr (n : Nat) (afterU : Text) : SynErr :=
@@ -120,9 +139,19 @@ def readStringBody (n : Nat) : Text → R (Text × Text)
             | a :: b :: c' :: d :: t2 =>
               match hex4 a b c' d with
               | some ch =>
-                match readStringBody n t2 with
-                | .ok (v, r) => .ok (ch :: v, r)
-                | .error err => .error err
+                match pairAt ch t2 with
+                | some cp =>
+                  -- a surrogate pair of escapes: one character, six more characters consumed
+                  match t2 with
+                  | _ :: _ :: _ :: _ :: _ :: _ :: t3 =>
+                    match readStringBody n t3 with
+                    | .ok (v, r) => .ok (cp :: v, r)
+                    | .error err => .error err
+                  | _ => .error ⟨.invalidEscapeSequence, posAt n t1 - 1⟩   -- unreachable (`pairAt_some_length`)
+                | none =>
+                  match readStringBody n t2 with
+                  | .ok (v, r) => .ok (ch :: v, r)
+                  | .error err => .error err
               | none => .error ⟨.invalidEscapeSequence, posAt n t1 - 1⟩
             | _ => .error (shortUnicodeErr n t1)
           else .error ⟨.invalidEscapeSequence, posAt n t1 - 1⟩
@@ -132,6 +161,7 @@ def readStringBody (n : Nat) : Text → R (Text × Text)
       match readStringBody n t with
       | .ok (v, r) => .ok (c :: v, r)
       | .error err => .error err
+termination_by structural s => s
 
 /-- `_read_string`; `s` starts with the opening quote -/
 def readString (n : Nat) (s : Text) : R (Tok × Text) :=
